@@ -195,7 +195,7 @@ type q02 struct {
 	hist int
 }
 
-var q02Alph = [14]int{5, 8, 4, 4, 4, 2, 2, 2, 2, 3, 9, 2, 3, 3}
+var q02Alph = [14]int{5, 8, 4, 4, 4, 2, 2, 2, 2, 4, 9, 2, 3, 3}
 var q02Names = [14]string{"id", "body", "connset", "qset", "params", "secret", "quota", "optquota", "inituser", "external", "input", "span", "input2", "stream"}
 
 func (k q02) id() string {
@@ -293,6 +293,21 @@ func body02(k q02) Body {
 			q.ExternalTable = "ext"
 			q.ExternalData = []proto.InputColumn{{Name: inCols[1].name, Data: inCols[1].mk()}, {Name: inCols[0].name, Data: inCols[0].mk()}}
 			want = append(want, blk{"ext", []inCol{inCols[1], inCols[0]}})
+		case 3:
+			// an external table that happens to be empty: its block (name, column names and
+			// types, zero rows) still has to be sent — it declares the table
+			empty := func(ic inCol) inCol {
+				mk := ic.mk
+				return inCol{name: ic.name, typ: ic.typ, vals: []any{}, mk: func() proto.ColInput {
+					col := mk()
+					col.(interface{ Reset() }).Reset()
+					return col
+				}}
+			}
+			e0, e1 := empty(inCols[0]), empty(inCols[1])
+			q.ExternalTable = "ext0"
+			q.ExternalData = []proto.InputColumn{{Name: e0.name, Data: e0.mk()}, {Name: e1.name, Data: e1.mk()}}
+			want = append(want, blk{"ext0", []inCol{e0, e1}})
 		}
 		want = append(want, blk{"", nil})
 		var input []inCol
@@ -511,7 +526,7 @@ func body02(k q02) Body {
 
 // C02 — everything the client writes for a query is a well-formed packet sequence.
 func C02(c *vk.Ctx) {
-	c.Rule("queries with <= 2 (thorough 4) fields deviating from a base query over per-field alphabets (query id given / generated / 127 / 128 / 300 bytes; body short / empty / 127 / 128 / 16383 / 16384 bytes / 70 KiB / non-UTF-8; setting and parameter keys and values of 127 / 128 bytes; 0..2 connection settings; 0..2 query settings incl. an override and an empty value; 0..2 parameters; secret; query quota key; connection quota key (addendum); initial user; external data none / default table / named table with 2 columns; input of 1..3 columns, sent as one block, streamed in two rounds through OnInput (Reset + refill of the same column objects) or sent without rows, over 32 column types and two large pseudo-random blocks (40000 x UInt64 = 320 KB, 3000 x 64-byte strings) (integers to 256 bits, floats, Bool, UUID, IPv4/6, dates, DateTime64, Decimal, FixedString, name-based enums that must adopt the server's definition, JSON, Point, Nullable, LowCardinality, nested arrays, Array(LowCardinality), Map(String, Array), Tuple); OpenTelemetry span context) x {Disabled, None, LZ4, LZ4HC, ZSTD} at the newest revision, and queries with <= 1 deviation x every revision of the threshold-neighbour set from 54420 up x {Disabled, LZ4}. plus queries with <= 1 deviation on a client with a history (a Ping or a Do refused for an already cancelled context; an answered Ping). Each case is one execution of the real Connect + Do (default schedule); the recorded client bytes are compared with the reference encoding (Query packet byte for byte; blocks by reference decoding incl. frame checksum). distinct_nontrivial = cases.")
+	c.Rule("queries with <= 2 (thorough 4) fields deviating from a base query over per-field alphabets (query id given / generated / 127 / 128 / 300 bytes; body short / empty / 127 / 128 / 16383 / 16384 bytes / 70 KiB / non-UTF-8; setting and parameter keys and values of 127 / 128 bytes; 0..2 connection settings; 0..2 query settings incl. an override and an empty value; 0..2 parameters; secret; query quota key; connection quota key (addendum); initial user; external data none / default table / named table with 2 columns / named table with 2 columns and no rows; input of 1..3 columns, sent as one block, streamed in two rounds through OnInput (Reset + refill of the same column objects) or sent without rows, over 32 column types and two large pseudo-random blocks (40000 x UInt64 = 320 KB, 3000 x 64-byte strings) (integers to 256 bits, floats, Bool, UUID, IPv4/6, dates, DateTime64, Decimal, FixedString, name-based enums that must adopt the server's definition, JSON, Point, Nullable, LowCardinality, nested arrays, Array(LowCardinality), Map(String, Array), Tuple); OpenTelemetry span context) x {Disabled, None, LZ4, LZ4HC, ZSTD} at the newest revision, and queries with <= 1 deviation x every revision of the threshold-neighbour set from 54420 up x {Disabled, LZ4}. plus queries with <= 1 deviation on a client with a history (a Ping or a Do refused for an already cancelled context; an answered Ping). Each case is one execution of the real Connect + Do (default schedule); the recorded client bytes are compared with the reference encoding (Query packet byte for byte; blocks by reference decoding incl. frame checksum). distinct_nontrivial = cases.")
 	run := func(k q02, group string) {
 		id := k.id()
 		if !c.Next(id) {
